@@ -31,7 +31,10 @@ let faults_of m = {
   f_hr = (get m "hr" = "ok" || get m "hr" = "-");
   f_ob = obsts (get m "ob"); f_rob = obsts (get m "rob") }
 let starts p s = String.length s >= String.length p && String.sub s 0 (String.length p) = p
-let tarball_of m =
+(* [extractor_rejected]: for the one input class the property lets the extractor judge either way (a member name
+   repeated in the archive, last body = the vouched one: tam = dupl / dups) the implementation's answer is taken:
+   when it refused the tarball without changing anything, extraction counts as failed (t_members_ok = false). *)
+let tarball_of ?(extractor_rejected=false) m =
   let tam = get m "tam" in
   let arts = List.map (fun it -> match String.split_on_char ':' it with
       | [p; c; md; rc] ->
@@ -45,7 +48,8 @@ let tarball_of m =
         | s -> let l = String.length s in
           Prev (n_of_int (int_of_string (String.sub s 0 (l-1))), s.[l-1] = 'o'));
     t_sig_ok = (get m "sig" = "ok");
-    t_members_ok = not (List.mem tam ["dotdot"; "deepdot"; "abs"; "symlink"; "hardlink"; "tierb"; "nomanifest"]);
+    t_members_ok = not (List.mem tam ["dotdot"; "deepdot"; "abs"; "symlink"; "hardlink"; "tierb"; "nomanifest"])
+                   && not (extractor_rejected && (tam = "dupl" || tam = "dups"));
     t_digest_ok = not (starts "dig" tam || tam = "swapm" || tam = "nosrc" || tam = "duplr" || tam = "dupsr"
                        || (tam = "dupman" && (match arts with a0 :: a1 :: _ -> a0.a_content <> a1.a_content | _ -> false)));
     t_hook_ok = (get m "hook" = "n");
@@ -91,7 +95,14 @@ let () =
     | "modefix" -> { v_mode_fix = true; v_curm_fix = false; v_keep_fix = false; v_stale_fix = false; v_same_fix = false }
     | "curmfix" -> { v_mode_fix = false; v_curm_fix = true; v_keep_fix = false; v_stale_fix = false; v_same_fix = false }
     | _ -> failwith "unknown variant" in
+  let impl_lines = if Array.length Sys.argv > 2 && Sys.argv.(2) <> "-" then Array.of_list (read_lines Sys.argv.(2)) else [||] in
+  let lineno = ref (-1) in
+  let tail s = match String.index_opt s ' ' with Some i -> String.sub s i (String.length s - i) | None -> "" in
+  let split_segs l =
+    let re = Str.regexp_string " | " in Array.of_list (Str.split re l) in
   List.iter (fun line ->
+    incr lineno;
+    let isegs = if !lineno < Array.length impl_lines then split_segs impl_lines.(!lineno) else [||] in
     try
     match tokens line with
     | [] -> print_endline "badline"
@@ -106,9 +117,16 @@ let () =
       let f q = match List.assoc_opt (int_of_n q) tbl with Some x -> x | None -> None in
       let w = ref (init_world (n_of_int (int_of_string ver)) f) in
       let ops = split_ops rest [] [] in
+      let opno = ref (-1) in
       let segs = List.map (fun o ->
+          incr opno;
           let opv = match o with
-            | "apply" :: r -> let m = kv r in OpApply (tarball_of m, opts_of m, faults_of m)
+            | "apply" :: r -> let m = kv r in
+              (* admissible only as a refusal that leaves everything as it is *)
+              let rejected = !opno < Array.length isegs &&
+                             (let sg = isegs.(!opno) in
+                              String.length sg >= 4 && String.sub sg 0 4 = "err " && tail sg = tail (observe !w "err" "-")) in
+              OpApply (tarball_of ~extractor_rejected:rejected m, opts_of m, faults_of m)
             | "rollback" :: r -> OpRollback (faults_of (kv r))
             | "clear" :: _ -> OpClear
             | "edit" :: r -> let m = kv r in OpEdit (n_of_int (int_of_string (get m "p")), file_of_spec (get m "f"))
